@@ -21,6 +21,10 @@ func NewDistribution(
 	rateFn RateFunction,
 	randomFnArg func(int) int,
 ) (time.Duration, RateFunction, error) {
+	if iterationDuration <= 0 {
+		return iterationDuration, rateFn, fmt.Errorf("iteration frequency %s must be positive", iterationDuration)
+	}
+
 	randomFn := randomFnArg
 	if randomFn == nil {
 		randomFn = rand.Intn
